@@ -222,7 +222,8 @@ def job_api(j):
     # single reads through both entry points, in both orders, on one object: read_sensor(id) / read_setting(id) report the
     # documented reading of THAT item's registers (ids may name a sensor and a setting at different addresses)
     if cfg.get('singles'):
-        for order in ('sensors-first', 'settings-first'):
+        sigs = {}
+        for order in ('sensors-first', 'settings-first', 'sensors-first+neighbour', 'settings-first+neighbour'):
             world.reset()
             r = make_rig(cfg, transport, fill=api_fill(2, seed))
             inv = r.inv
@@ -232,10 +233,21 @@ def job_api(j):
                     r.dev.runtime[i] = f(i) & 0xFF
             if r.call(inv.read_device_info)[0] != 'ok':
                 continue
+            if order.endswith('+neighbour'):
+                # another object of the same family but another model class is detected and used in this process
+                from ..configs import configure_neighbour
+                configure_neighbour(cfg)
             sens = [('sensor', s) for s in inv.sensors() if own_span(s)]
             sets = [('setting', s) for s in inv.settings() if own_span(s)]
+            # which registers an id stands for on THIS object must not depend on other objects in the process
+            sig = {(k, s.id_): (tname(s), s.offset, getattr(s, 'scale', None), s.unit) for k, s in sens + sets}
+            base = sigs.setdefault(order.split('+')[0], sig) if not order.endswith('+neighbour') else sigs.get(order.split('+')[0], sig)
+            for key_ in sorted(set(sig) | set(base)):
+                if sig.get(key_) != base.get(key_):
+                    bad(f'api:register-map/{fam}/{key_[1]}/changed-by-another-object', key_[1],
+                        f'{key_[0]} {key_[1]}: {base.get(key_)} alone, {sig.get(key_)} after another {fam} object was detected', 2)
             ids = [s.id_ for _, s in sens]
-            for kind, s in (sens + sets if order == 'sensors-first' else sets + sens):
+            for kind, s in (sens + sets if order.startswith('sensors-first') else sets + sens):
                 if kind == 'sensor' and ids.count(s.id_) > 1:
                     continue
                 nb = refdec.size_of(s)
